@@ -1,6 +1,7 @@
 /* Object-creating helpers with a throwing element type over a recording leaf (C20, C11).
  *  -DCASE=1 allocate_unique<elem[]>(n)   2 allocate_unique<elem>   3 allocate_shared<elem>
  *  -DCASE=4 allocate_joint<jt>(additional, n, m)   5 clone_joint   6 move + reset of a joint_ptr
+ *  -DCASE=7 allocate_joint<jt2>: byte array before the element array (alignment padding inside the joint memory)
  * Symbolic: array length 0..NMAX, which constructor call fails (or none), whether the leaf allocation fails,
  * the additional size of the joint block (0..64) and both member array lengths. */
 #include "hooks_common.h"
@@ -94,8 +95,15 @@ void harness(void)
     }
 #elif CASE >= 4
     uint64_t add = nondet_u8(), n = nondet_u8(), m = nondet_u8(); ASSUME(add <= 64 && n <= NMAX && m <= 16);
+#if CASE == 7
+    uint64_t SZ = w_sizeof_jt2(), AL = w_alignof_jt2();
+    ASSUME(n >= 1);
+    w_joint2_create(LEAF, add, n, m);
+#else
     uint64_t SZ = w_sizeof_jt(), AL = w_alignof_jt();
-#if CASE == 4
+#endif
+#if CASE == 7
+#elif CASE == 4
     w_joint_create(LEAF, add, n, m);
 #elif CASE == 5
     w_joint_clone(LEAF, add, n, m);
@@ -106,10 +114,15 @@ void harness(void)
     if (lg[0].ptr == 0) { ASSERT(EXC && n_elem == 0, "C11: failed allocation propagates"); }
     else {
         uint64_t obj = lg[0].ptr, lo = obj + SZ, hi = obj + SZ + add;
+#if CASE == 7
+        /* byte array first: the element array behind it needs padding up to its alignment */
+        int fits = m + ((8 - (m & 7)) & 7) + n * 8 <= add;
+#else
         int fits = n * 8 + m <= add;      /* elem array first (8-aligned, SZ is a multiple of 8), then the char array */
+#endif
         int thrown = fail_at >= 0 && (uint64_t)fail_at < n;
         if (!fits && !thrown) ASSERT(EXC && exc_is(XK_OOFM), "C11: a request that does not fit the joint memory throws out_of_fixed_memory");
-#if CASE == 4 || CASE == 6
+#if CASE == 4 || CASE == 6 || CASE == 7
         if (fits && !thrown) {
             ASSERT(!EXC, "C11: fitting requests succeed (exact fit included)");
             ASSERT(piece_seen[0] == 1 && piece_seen[1] == 1, "pieces observed");
